@@ -43,7 +43,7 @@ STUBS = ['coroutines are driven with send(None); uncontended asyncio locks never
          'sessions are attached to ConnectionState directly (login is C09)']
 OUTSIDE = ['maildir rescans', 'histories longer than the bound', 'more than two sessions']
 
-OPS = ['append', 'store_seen', 'delete', 'noop', 'fetch_body', 'copy_self', 'uidstore_flagged']
+OPS = ['append', 'store_seen', 'delete', 'noop', 'fetch_body', 'copy_self', 'uidstore_flagged', 'move_seq']
 _g: dict = {}
 
 
@@ -53,7 +53,7 @@ def setup() -> None:
     _g['_sim'] = _sim
 
 
-def program(g, sim, base, m, script, check):
+def program(g, sim, base, m, script, check, oracle='both'):
     """script: list of (opname, session, arg).  Returns error string|None."""
     w = sim.World(g, 2, base_uid=base, check=check)
     for _ in range(m):
@@ -62,6 +62,19 @@ def program(g, sim, base, m, script, check):
     w.select(1)
     Seen, Deleted, Flagged = g['Seen'], g['Deleted'], g['Flagged']
     for op, s, a in script:
+        # what the client means by sequence number a right now
+        target = None
+        known = False
+        if a is not None and op in ('store_seen', 'fetch_body', 'move_seq', 'delete'):
+            ents = w.clients[s].entries
+            for i, e in enumerate(ents, 1):
+                if a == i:
+                    target = e['uid']
+                    known = target is not None
+                    break
+            else:
+                known = True      # out of range: the client addresses nothing
+        before = w.dump('INBOX')
         if op == 'append':
             w.append(s)
         elif op == 'store_seen':
@@ -77,15 +90,36 @@ def program(g, sim, base, m, script, check):
             w.copy(s, [a], 'INBOX')
         elif op == 'uidstore_flagged':
             w.store(s, [(a, '*')], [Flagged], 'REPLACE', uid=True)
+        elif op == 'move_seq':
+            w.copy(s, [a], 'Other', move=True)
+        after = w.dump('INBOX')
+        if known and op in ('store_seen', 'fetch_body'):
+            # only the message the client addressed may have gained \Seen
+            for uid, flags, _ in after:
+                was = None
+                for u0, f0, _ in before:
+                    if bool(u0 == uid):
+                        was = f0
+                if was is not None and Seen in flags and Seen not in was:
+                    if target is None:
+                        return 'C01-type: %s %s changed a message although the client addressed none' % (op, s)
+                    check(uid == target, 'the server applied %s to a different message than the client addressed' % op)
+        if known and op == 'move_seq':
+            for u0, _, _ in before:
+                if not any(bool(u0 == u1) for u1, _, _ in after):
+                    if target is None:
+                        return 'C01-type: MOVE removed a message although the client addressed none'
+                    check(u0 == target, 'MOVE took a different message than the client addressed')
         for t in (0, 1):
             err = w.check_client_matches_server(t, 'after %s by %d' % (op, s))
             if err:
                 return 'C01-type: ' + err
+        w.learn_uids(s)
     # quiescent: nothing in flight; NOOP in both sessions
     for t in (0, 1):
         w.noop(t)
     for t in (0, 1):
-        err = w.check_converged(t)
+        err = w.check_converged(t) if oracle == 'both' else None
         if err:
             return 'session %d: %s' % (t, err)
         err = w.check_client_matches_server(t, 'at the end')
@@ -94,7 +128,7 @@ def program(g, sim, base, m, script, check):
     return None
 
 
-def _harness(m, d, ops):
+def _harness(m, d, ops, oracle='both'):
     def fn(eng):
         from pysymex import SymUid, B, AND, Outcome
         base = eng.fresh_int('base', 0, cls=SymUid)
@@ -104,7 +138,7 @@ def _harness(m, d, ops):
             s = eng.choose('s%d' % t, 2)
             op = ops[o]
             a = None
-            if op in ('store_seen', 'delete', 'fetch_body', 'copy_self'):
+            if op in ('store_seen', 'delete', 'fetch_body', 'copy_self', 'move_seq'):
                 a = eng.fresh_int('a%d' % t, 1, m + d + 1, cls=SymUid)
             elif op == 'uidstore_flagged':
                 off = eng.fresh_int('a%d' % t, 0, m + d + 1)
@@ -116,8 +150,8 @@ def _harness(m, d, ops):
             sc = []
             for op, s, a in script:
                 sc.append([op, s, None if a is None else a.eval(mdl)])
-            return {'base': base.eval(mdl), 'm': m, 'script': sc}
-        err = program(_g, _g['_sim'], base, m, script, lambda c, msg='': obligations.append(B(c)))
+            return {'base': base.eval(mdl), 'm': m, 'script': sc, 'oracle': oracle}
+        err = program(_g, _g['_sim'], base, m, script, lambda c, msg='': obligations.append(B(c)), oracle)
         if err is not None:
             return Outcome(False, witness=wit, info=err)
         return Outcome(AND(*obligations), witness=wit)
@@ -128,7 +162,7 @@ def harnesses(tier):
     from pysymex.runner import Harness
     if tier == 'quick':
         cfgs = [(1, 3, ['store_seen', 'delete', 'noop', 'append']),
-                (2, 2, OPS)]
+                (2, 2, OPS), (3, 2, ['delete', 'move_seq', 'store_seen'])]
     else:
         cfgs = [(1, 4, ['store_seen', 'delete', 'noop', 'append', 'fetch_body']),
                 (2, 3, OPS), (2, 4, ['store_seen', 'delete', 'noop', 'append'])]
@@ -146,10 +180,10 @@ def replay(harness, w):
     def check(c, msg=''):
         if not c:
             bad.append(msg or 'obligation failed')
-    err = program(g, _sim, w['base'], w['m'], [tuple(x) for x in w['script']], check)
+    err = program(g, _sim, w['base'], w['m'], [tuple(x) for x in w['script']], check, w.get('oracle', 'both'))
     if err:
         bad.append(err)
-    return {'violates': bool(bad), 'detail': bad[:3]}
+    return {'violates': bool(bad), 'detail': bad[:3], 'category': (bad[0] if bad else '')[:70]}
 
 
 def classify(harness, w, res):
